@@ -383,6 +383,8 @@ func specFail(format string, a ...any) {
 func (c *Ctx) resolveType(s string, pkg *types.Package) types.Type {
 	s = strings.TrimSpace(s)
 	switch s {
+	case "interface {}", "interface{}":
+		return types.Universe.Lookup("any").Type()
 	case "int":
 		return types.Typ[types.Int]
 	case "int64":
